@@ -450,13 +450,13 @@ func vc12Exec(in *c12h.Input) c12h.Obs {
 // accumulator allocates a children buffer of capacity 5000 (56 bytes each) per flushed group, a realistic section is
 // at least 40 bytes (36-byte CID).
 func vc12Budget(in *c12h.Input) uint64 {
-	return 32<<20 + uint64(16*len(in.Data)) + uint64(len(in.Data)/40+2)*5000*64
+	return 80<<20 + uint64(16*len(in.Data)) + uint64(len(in.Data)/40+2)*5000*64 // 32 MiB section cap (go-car) + 32 MiB digest cap (go-cid) + growth
 }
 
 func TestVerif_C12(t *testing.T) {
 	c12h.Run(t, &c12h.Part{
 		Name:  "accum",
-		Rule:  "carreader.New + ObjectAccumulator(flush on Block).Run + ObjectsToTransactionsAndMetadata (entry accumulate; entry objects: the same objects read with NextNodeBytes and grouped by hand) on mutated valid CARv1 streams (section-length varints, CID prefix bytes, objects replaced by 0/1/2-byte objects, declared lengths below the CID length / above the data, truncations, random edits, junk): no panic, allocation <= 32MiB (go-car's section cap) + 16*len + one children buffer (5000 slots) per 40 input bytes, no hang",
+		Rule:  "carreader.New + ObjectAccumulator(flush on Block).Run + ObjectsToTransactionsAndMetadata (entry accumulate; entry objects: the same objects read with NextNodeBytes and grouped by hand) on mutated valid CARv1 streams (section-length varints, CID prefix bytes, objects replaced by 0/1/2-byte objects, declared lengths below the CID length / above the data, truncations, random edits, junk): no panic, allocation <= 80MiB (go-car's 32 MiB section cap + go-cid's 32 MiB digest cap + growth) + 16*len + one children buffer (5000 slots) per 40 input bytes, no hang",
 		Seeds: vc12Seeds, Gen: vc12Gen, Exec: vc12Exec, Budget: vc12Budget,
 	})
 }
